@@ -12,7 +12,7 @@ from __future__ import annotations
 
 import math
 import os
-from concurrent.futures import ProcessPoolExecutor, ThreadPoolExecutor
+from concurrent.futures import ThreadPoolExecutor
 from fractions import Fraction
 
 import numpy as np
@@ -24,6 +24,7 @@ CLAUSES = ["Clauses"]
 H = 8192            # fold bound of the spec: reference rationals have |n|, d <= H
 LIMN = 10 ** 5      # larger observed numerators cannot equal a reference value (keeps TLC's cross products in range)
 BATCH = 5000
+MAXREPORT = 200    # replay files written per run (known findings do not count)
 NPROC = 8
 
 BIN = {"add": "+", "sub": "-", "mul": "*", "div": "/", "pow": "**"}
@@ -62,73 +63,64 @@ def sl(py, *a):
     return dict(py=py, a=list(a))
 
 
-def base(var_sizes, points, F, A, M, S, Fn):
-    return dict(VarSizes=var_sizes, Points=points, FCat=F, ACat=A, MCat=M, SCat=S, FnCat=Fn, H=H)
+def fv(n, d=1, t="float"):
+    return dict(v=q(n, d), t=t)
 
 
-F_INT2 = dict(v=q(2), t="int")
-F_MHALF = dict(v=q(-1, 2), t="float")
-F_3 = dict(v=q(3), t="float")
-F_M1 = dict(v=q(-1), t="float")
-F_HALF = dict(v=q(1, 2), t="float")
-F_1 = dict(v=q(1), t="float")
+# The catalogue (constants of AdAlgebra.tla).  A point fixes the independent variables: their number, sizes, values.
+CATALOGUE = dict(
+    Points=[
+        [[q(3), q(4)], [q(1, 2), q(-2)]],             # 1  two variables of size 2 (COO Jacobians); x Pythagorean
+        [[q(1), q(1)], [q(2), q(3)]],                 # 2  x = 1: x ** y is exactly representable
+        [[q(2), q(-1, 2), q(3)]],                     # 3  one variable of size 3 (CSR Jacobian)
+        [[q(3, 5), q(4, 5)]],                         # 4  one variable, 0 < x < 0.92, |x| = 1
+        [[q(3, 2), q(-2)]],                           # 5  one variable, mixed signs
+        [[q(1, 4), q(-1, 2)], [q(2), q(3, 2)]],       # 6  two variables
+        [[q(2), q(-3)], [q(1, 2), q(1)], [q(-1), q(4)]],   # 7  three variables
+        [[q(2), q(3), q(6)], [q(1), q(-1, 2), q(2)]],      # 8  two variables of size 3; |x| = 7
+    ],
+    FCat=[fv(2, t="int"), fv(-1, 2), fv(3), fv(-1), fv(1, 2)],
+    ACat=[[q(2), q(-1)], [q(1), q(-2), q(1, 2)], [q(3), q(1, 2)]],
+    MCat=[mat([[1, 2], [0, -1]], "csr"), mat([[1, 0], [1, 1], [2, -1]], "csc"), mat([[1, 0, 2], [0, -1, 1]], "csc"),
+          mat([[2, 0, 0], [1, 1, 0], [0, 3, -1]], "csr"), mat([[1, 1], [1, -1]], "csc")],
+    SCat=[sl("slice", 0, 1, 1), sl("array", 1, 0), sl("int", 1), sl("slice", 0, 3, 2), sl("int", 2), sl("array", 2, 0, 1),
+          sl("slice", 1, 3, 2), sl("slice", 0, 2, 1)],
+    FnCat=FN_ALL + FN_MORE,
+    H=H)
+NFN = len(FN_ALL)
+
+
+def cfg(name, pts, F=(), A=(), M=(), S=(), Fn=(), bin=(), un=(), law=()):
+    return dict(name=name, pts=set(pts), F=set(F), A=set(A), M=set(M), S=set(S), Fn=set(Fn), bin=set(bin), un=set(un),
+                law=set(law))
 
 
 def plans(quick):
-    """[(name, AdAlgebra constants, enumeration constants, simulate traces or None)]"""
-    P = []
-    # A: two variables of size 2 (Jacobians from initAdArrays are COO); point 1 is Pythagorean in x, point 2 has x = 1
-    # (AdArray ** AdArray is then exactly representable)
-    ptsA = [[[q(3), q(4)], [q(1, 2), q(-2)]], [[q(1), q(1)], [q(2), q(3)]]]
-    MA = [mat([[1, 2], [0, -1]], "csr"), mat([[1, 0], [1, 1], [2, -1]], "csc")]
-    SA = [sl("slice", 0, 1, 1), sl("array", 1, 0), sl("int", 1), sl("slice", 0, 3, 2)]
-    AA = [[q(2), q(-1)], [q(1), q(-2), q(1, 2)]]
+    """(configurations enumerated exhaustively to depth 2, [(configuration, traces)] simulated to depth 3)"""
+    allfn = range(1, NFN + 1)
     if quick:
-        A = base([2, 2], ptsA[:1], [F_INT2, F_MHALF], AA[:1], MA[:1], SA[:2], [])
-        P.append(("A-alg", A, dict(BinOps=ALLBIN, UnOps=ALLUN, LawOps={"mul"}), None))
-        A2 = base([2, 2], ptsA[1:], [F_INT2], [], MA[1:], [], [])
-        P.append(("A-pow", A2, dict(BinOps={"pow", "mul"}, UnOps={"matmul"}, LawOps={"mul"}), None))
-    else:
-        A = base([2, 2], ptsA, [F_INT2, F_MHALF, F_3], AA, MA, SA, [])
-        P.append(("A-alg", A, dict(BinOps=ALLBIN, UnOps=ALLUN, LawOps={"mul"}), None))
-    # B: one variable of size 3 (CSR Jacobian): slicing of a fresh variable
-    ptsB = [[[q(2), q(-1, 2), q(3)]]]
-    MB = [mat([[1, 0, 2], [0, -1, 1]], "csc"), mat([[2, 0, 0], [1, 1, 0], [0, 3, -1]], "csr")]
-    SB = [sl("slice", 0, 2, 1), sl("int", 2), sl("array", 2, 0, 1), sl("slice", 1, 3, 2)]
-    AB = [[q(1), q(-2), q(1, 2)], [q(3), q(-1)]]
-    if quick:
-        B = base([3], ptsB, [F_M1], AB[:1], MB[:1], SB[:3], [])
-    else:
-        B = base([3], ptsB, [F_M1, F_INT2, F_HALF], AB, MB, SB, [])
-    P.append(("B-alg", B, dict(BinOps=ALLBIN, UnOps=ALLUN, LawOps={"mul"}), None))
-    # F: the function library on two variables of size 2: f(x), f(g(x)), f(x) op g(y), f(x op y), f(A @ x) ...
-    ptsF = [[[q(3), q(4)], [q(1, 2), q(-2)]], [[q(1, 4), q(-1, 2)], [q(2), q(3, 2)]]]
-    MF = [mat([[1, 1], [1, -1]], "csc")]
-    if quick:
-        Fq = base([2, 2], ptsF[:1], [F_INT2], [], MF, [], FN_ALL)
-        P.append(("F-fun", Fq, dict(BinOps={"mul", "pow"}, UnOps={"fn", "matmul"}, LawOps=set()), None))
-    else:
-        Ft = base([2, 2], ptsF, [F_INT2, F_MHALF], [[q(2), q(-1)]], MF, [sl("array", 1, 0)], FN_ALL + FN_MORE)
-        P.append(("F-fun", Ft, dict(BinOps={"add", "mul", "div", "pow"}, UnOps={"fn", "matmul", "slice", "neg"}, LawOps=set()), None))
-        # maximum with every operand kind
-        Mx = base([2, 2], ptsA, [F_INT2, F_MHALF], AA[:1], MA, SA[:2], [fn("abs"), fn("heaviside", (1, 2))])
-        P.append(("M-max", Mx, dict(BinOps={"max", "mul", "sub"}, UnOps={"neg", "matmul", "slice", "fn"}, LawOps=set()), None))
-        # C: three variables; D: two variables of size 3 (l2_norm with dim 3)
-        ptsC = [[[q(2), q(-3)], [q(1, 2), q(1)], [q(-1), q(4)]]]
-        C = base([2, 2, 2], ptsC, [F_INT2, F_MHALF], AA[:1], MA[:1], SA[:2], [])
-        P.append(("C-alg", C, dict(BinOps=ALLBIN, UnOps=ALLUN, LawOps={"mul"}), None))
-        ptsD = [[[q(2), q(3), q(6)], [q(1), q(-1, 2), q(2)]]]
-        D = base([3, 3], ptsD, [F_INT2], AB[:1], MB[1:], SB[:1], [fn("l2_norm", 3), fn("l2_norm", 1), fn("safe_power", -1, 0, (1, 4)), fn("exp")])
-        P.append(("D-alg", D, dict(BinOps={"mul", "div", "sub"}, UnOps={"neg", "matmul", "slice", "fn"}, LawOps={"mul"}), None))
-        # depth 3 by simulation
-        P.append(("A-alg-d3", A, dict(BinOps=ALLBIN, UnOps=ALLUN, LawOps=set()), 6000))
-        P.append(("F-fun-d3", Ft, dict(BinOps={"add", "mul", "div", "pow"}, UnOps={"fn", "matmul", "slice", "neg"}, LawOps=set()), 6000))
-        P.append(("M-max-d3", Mx, dict(BinOps={"max", "mul", "sub"}, UnOps={"neg", "matmul", "slice", "fn"}, LawOps=set()), 2000))
-    if quick:
-        # maximum (small)
-        Mx = base([2, 2], ptsA[:1], [F_INT2], AA[:1], MA, [], [])
-        P.append(("M-max", Mx, dict(BinOps={"max"}, UnOps={"matmul", "neg"}, LawOps=set()), None))
-    return P
+        ex = [cfg("A-alg", [1], M=[1], S=[1], bin={"add", "mul", "div", "pow"}, un=ALLUN, law={"mul"}),
+              cfg("A-pow", [2], F=[1], M=[2], bin={"pow", "mul"}, un={"matmul"}),
+              cfg("B-alg", [3], F=[4], A=[2], M=[3], S=[5, 6], bin={"sub", "mul", "div", "pow"}, un=ALLUN, law={"mul"}),
+              cfg("F-fun", [4, 5], F=[1], M=[5], Fn=allfn, bin={"mul"}, un={"fn", "matmul"}),
+              cfg("M-max", [1], F=[1], A=[1], M=[1, 2], bin={"max"}, un={"matmul", "neg"})]
+        return ex, []
+    everyfn = range(1, len(CATALOGUE["FnCat"]) + 1)
+    A = cfg("A-alg", [1], F=[2], A=[1], M=[1, 2], S=[1, 2, 3], bin=ALLBIN, un=ALLUN, law={"mul"})
+    F2 = cfg("F-fun2", [6], F=[1, 2], M=[5], Fn=everyfn, bin={"mul", "pow"}, un={"fn", "matmul", "neg"})
+    Mx = cfg("M-max", [1, 2], F=[1, 2], A=[1], M=[1, 2], S=[1, 2], Fn=[15, 16], bin={"max", "mul"}, un={"neg", "matmul", "slice", "fn"})
+    ex = [A,
+          cfg("A-pow", [2], F=[1, 3], M=[2], bin={"pow", "mul", "div"}, un={"matmul", "neg"}, law={"mul"}),
+          cfg("B-alg", [3], F=[4, 1, 5], A=[2, 3], M=[3, 4], S=[5, 6, 7, 8], bin=ALLBIN, un=ALLUN, law={"mul"}),
+          cfg("F-fun1", [4, 5], F=[1, 2], M=[5], Fn=everyfn, bin={"add", "mul", "div", "pow"}, un={"fn", "matmul", "neg"}),
+          F2, Mx,
+          cfg("C-alg", [7], F=[1], M=[1], S=[1], bin={"sub", "mul", "div"}, un=ALLUN, law={"mul"}),
+          cfg("D-alg", [8], F=[1], A=[2], M=[4], S=[8], Fn=[30, 22, 19, 1], bin={"mul", "div", "sub"},
+              un={"neg", "matmul", "slice", "fn"}, law={"mul"})]
+    # -simulate checks the invariants (Emit) on ALL successors of the last step: every random pair of depth <= 2 subtrees
+    # is emitted with every root operation
+    sim = [(dict(A, name="A-alg-d3", pts={1, 2}), 250), (dict(F2, name="F-fun-d3", pts={1, 6}), 150), (dict(Mx, name="M-max-d3"), 100)]
+    return ex, sim
 
 
 # ---------------------------------------------------------------------------------------------------------
@@ -284,59 +276,64 @@ def scaled_err(x, ref):
 
 
 def execute(consts, rec):
-    """Run one emitted program; returns (out, note).  note = 'overflow' if the numpy evaluation of a required term is
-    not finite (the case is outside double range and is not judged)."""
+    """Run one program on real AdArrays -> observation (an exception of the code under test is an observation)."""
+    import warnings
+
     import scipy.sparse as sps
 
     out = dict(error="", n=0, rows=0, cols=0, val=[], jac=[], err=[])
-    refs = []
-    with np.errstate(all="ignore"):
-        for i, j, term in rec["sym"]:
-            r = tnum(term)
-            if np.isnan(r):
-                raise RuntimeError(f"the required term is nan (domain analysis of the spec is unsound): {rec['t']} {term}")
-            if not np.isfinite(r) or abs(r) > 1e150:
-                return None, "overflow"
-            refs.append((i, j, float(r)))
+    with np.errstate(all="ignore"), warnings.catch_warnings():
+        warnings.simplefilter("ignore")
         try:
-            import warnings
-
-            with warnings.catch_warnings():
-                warnings.simplefilter("ignore")
-                k, r = Machine(consts, rec["pt"]).run(rec["t"])
+            k, r = Machine(consts, rec["pt"]).run(rec["t"])
             if k != "ad" or not hasattr(r, "val") or not hasattr(r, "jac"):
                 raise TypeError(f"result is a {type(r).__name__}, not an AdArray")
             val = np.asarray(r.val, dtype=float)
             jac = r.jac.toarray() if sps.issparse(r.jac) else np.asarray(r.jac, dtype=float)
             if val.ndim != 1 or jac.ndim != 2:
                 raise TypeError(f"val.ndim = {val.ndim}, jac.ndim = {jac.ndim}")
-        except Exception as e:  # an exception of the code under test on an in-family program is an observation
+        except Exception as e:
             out["error"] = f"{type(e).__name__}: {e}"[:200]
-            return out, ""
+            return out
     out["n"], out["rows"], out["cols"] = int(val.size), int(jac.shape[0]), int(jac.shape[1])
     out["val"] = [enc(x) for x in val]
     out["jac"] = [[enc(x) for x in row] for row in jac]
     out["float"] = dict(val=[float(x) for x in val], jac=[[float(x) for x in row] for row in jac])
-    for i, j, ref in refs:
-        if i <= val.size and i <= jac.shape[0] and j <= jac.shape[1]:
-            x = val[i - 1] if j == 0 else jac[i - 1, j - 1]
-            out["err"].append([i, j, scaled_err(x, ref)])
-    return out, ""
+    return out
 
 
-def _exec_chunk(args):
-    consts, recs = args
-    return [execute(consts, r) for r in recs]
+def sym_errors(out, sym):
+    """scaled differences between the observed doubles and the numpy evaluation of the required terms;
+    None if a term is outside double range (the case is then not judged)"""
+    err = []
+    with np.errstate(all="ignore"):
+        for i, j, term in sym:
+            ref = tnum(term)
+            if np.isnan(ref):
+                raise RuntimeError(f"a required term evaluates to nan (the domain analysis of the spec is unsound): {term}")
+            if not np.isfinite(ref) or abs(ref) > 1e150:
+                return None
+            x = out["float"]["val"][i - 1] if j == 0 else out["float"]["jac"][i - 1][j - 1]
+            err.append([i, j, scaled_err(x, float(ref))])
+    return err
 
 
-def execute_all(consts, recs):
-    if len(recs) < 400:
-        return _exec_chunk((consts, recs))
-    n = NPROC
-    size = max(100, (len(recs) + 4 * n - 1) // (4 * n))
+def _exec_chunk(recs):
+    return [execute(CATALOGUE, r) for r in recs]
+
+
+def _warm(_):
+    import time
+
+    import porepy  # noqa: F401
+    time.sleep(0.2)
+    return os.getpid()
+
+
+def execute_all(pool, recs):
+    size = max(50, (len(recs) + 4 * NPROC - 1) // (4 * NPROC))
     chunks = [recs[i:i + size] for i in range(0, len(recs), size)]
-    with ProcessPoolExecutor(max_workers=n) as ex:
-        res = list(ex.map(_exec_chunk, [(consts, c) for c in chunks]))
+    res = pool.map(_exec_chunk, chunks) if pool is not None and len(recs) > 200 else [_exec_chunk(c) for c in chunks]
     return [o for ch in res for o in ch]
 
 
@@ -404,6 +401,13 @@ def depth(t):
     return d if t[0] == "id" else d + 1
 
 
+def mats_in(t):
+    """catalogue indices of the sparse matrices used by a program"""
+    if len(t) == 5:
+        return ({t[2]} if t[1] == "mat" else set()) | ({t[4]} if t[3] == "mat" else set())
+    return mats_in(t[1]) | mats_in(t[2])
+
+
 def ops_in(t):
     if len(t) == 5:
         return {t[0]}
@@ -413,78 +417,103 @@ def ops_in(t):
 # ---------------------------------------------------------------------------------------------------------
 # TLC: enumerate, judge
 # ---------------------------------------------------------------------------------------------------------
-def enumerate_programs(ctx, name, consts, en, traces):
-    allc = dict(consts, Mode="tree", BinOps=en["BinOps"], UnOps=en["UnOps"], LawOps=en["LawOps"],
-                MaxLevel=3 if traces else 2, Samples=[])
-    m, cf = tlc.gen(ctx.work / f"enum_{name}", "MC_AdAlgebraEnum", "AdAlgebraEnum", allc, invariants=["Emit", "Laws"])
-    if traces:
-        res = ctx.tlc(m, cf, workers=8, allow_violation=False, simulate=f"num={traces}", depth=6, timeout=1500)
-    else:
-        res = ctx.tlc(m, cf, workers=8, allow_violation=False, timeout=1500)
+def enum_consts(cfgs, mode="tree", level=2, samples=()):
+    cf = [{k: v for k, v in c.items() if k != "name"} for c in cfgs]
+    return dict(CATALOGUE, Mode=mode, Cfgs=cf, MaxLevel=level, Samples=list(samples))
+
+
+def enumerate_programs(ctx, tag, cfgs, traces=None):
+    """-> (programs [dict(t, pt, cf, sym, config)], skipped {reason: n})"""
+    m, cf = tlc.gen(ctx.work / f"enum_{tag}", "MC_AdAlgebraEnum", "AdAlgebraEnum", enum_consts(cfgs, level=3 if traces else 2),
+                    invariants=["Emit", "Laws"])
+    kw = dict(simulate=f"num={traces}", depth=6) if traces else {}
+    res = ctx.tlc(m, cf, workers=8, allow_violation=False, timeout=3000, heap="4g", **kw)
     progs, skips, seen = [], {}, set()
     for r in res.records:
         if "skip" in r:
             skips[r["skip"]] = skips.get(r["skip"], 0) + 1
-        else:
-            key = (repr(r["t"]), r["pt"])
-            if key in seen:       # simulation may walk to the same program twice
-                continue
-            seen.add(key)
-            progs.append(r)
+            continue
+        key = (repr(r["t"]), r["pt"])
+        if key in seen:       # simulation may walk to the same program twice
+            continue
+        seen.add(key)
+        r["config"] = cfgs[r["cf"] - 1]["name"]
+        progs.append(r)
     return progs, skips
 
 
-def judge(ctx, name, consts, recs, outs, prefix=""):
-    cases, idx = [], []
-    for k, (r, (o, note)) in enumerate(zip(recs, outs)):
-        if o is None:
+def judge(ctx, cases, tag):
+    """one TLC run of J_AdAlgebra on <= BATCH cases (the idiom of Ctx.judge, with a smaller heap)"""
+    f = ctx.datafile(f"cases_{tag}.json", cases)
+    m, cf = tlc.gen(ctx.work / tag, "MC_J_AdAlgebra", "J_AdAlgebra", CATALOGUE, spec="JSpec", invariants=CLAUSES)
+    res = ctx.tlc(m, cf, workers=5, env={"VERIF_CASES": f}, allow_violation=False, timeout=3000, heap="3g")
+    return res.records
+
+
+def judge_all(ctx, progs, outs, prefix=""):
+    """-> status per program: 'judged' | 'overflow'"""
+    status, cases, idx = [], [], []
+    for k, (r, o) in enumerate(zip(progs, outs)):
+        err = []
+        if not o["error"] and r["sym"]:
+            ok = all(i <= o["n"] and i <= o["rows"] and j <= o["cols"] for i, j, _ in r["sym"])
+            err = sym_errors(o, r["sym"]) if ok else []
+        if err is None:
+            status.append("overflow")
             continue
-        cases.append(dict(t=r["t"], pt=r["pt"], out={x: o[x] for x in ("error", "n", "rows", "cols", "val", "jac", "err")}))
+        status.append("judged")
+        cases.append(dict(t=r["t"], pt=r["pt"], out=dict(error=o["error"], n=o["n"], rows=o["rows"], cols=o["cols"],
+                                                         val=o["val"], jac=o["jac"], err=err)))
         idx.append(k)
-    batches = [(b, cases[b:b + BATCH]) for b in range(0, len(cases), BATCH)]
+    nb = max(1, -(-len(cases) // BATCH))
+    if 1000 < len(cases) <= 2 * BATCH:
+        nb = max(nb, 3)                      # small runs: three concurrent TLC runs instead of one long one
+    size = max(1, -(-len(cases) // nb))      # batches of equal size (<= BATCH) so that concurrent runs finish together
+    batches = [(b, cases[b:b + size]) for b in range(0, len(cases), size)]
 
     def one(arg):
         b, cs = arg
-        return b, ctx.judge("J_AdAlgebra", cs, CLAUSES, consts=consts, workers=4 if len(batches) > 1 else 8,
-                            tag=f"j_{name}_{b}", timeout=1500)
+        return b, judge(ctx, cs, f"judge_{len(ctx.tlc_runs)}_{b}")
 
-    if len(batches) > 1:
+    if len(batches) <= 1:
+        results = [one(b) for b in batches]
+    else:
         with ThreadPoolExecutor(max_workers=3) as ex:
             results = list(ex.map(one, batches))
-    else:
-        results = [one(b) for b in batches]
     for b, verdicts in results:
         for v in verdicts:
             k = idx[b + v["case"] - 1]
-            r, o = recs[k], outs[k][0]
+            r, o = progs[k], outs[k]
             if v.get("tag") == "inconclusive":
                 ctx.inconclusive += len(v["val"])
                 continue
             if v["clause"] == "InFamily":
                 raise RuntimeError(f"enumerator and judge disagree on the family: {r['t']} at point {r['pt']}")
-            expr = show(consts, r["t"])
-            rec = dict(config=name, consts=consts, t=r["t"], pt=r["pt"], sym=r["sym"], expr=expr,
-                       point=consts["Points"][r["pt"] - 1], bad=v.get("bad", []),
+            if len(ctx.violations) >= MAXREPORT:     # a broken rule fails thousands of programs: keep the replay directory small
+                ctx.extra["further_violations_not_written"] = ctx.extra.get("further_violations_not_written", 0) + 1
+                continue
+            expr = show(CATALOGUE, r["t"])
+            point = CATALOGUE["Points"][r["pt"] - 1]
+            rec = dict(config=r.get("config", ""), t=r["t"], pt=r["pt"], sym=r["sym"], expr=expr, point=point, bad=v.get("bad", []),
+                       matrix_formats=sorted({CATALOGUE["MCat"][i - 1]["fmt"] for i in mats_in(r["t"])}), nvars=len(point),
                        observed=dict(error=o["error"], n=o["n"], rows=o["rows"], cols=o["cols"], **o.get("float", {})))
             what = o["error"] if o["error"] else f"entries {v.get('bad', [])} (row, column; column 0 = val) differ from the reference"
-            ctx.violation(v["clause"], rec, f"{prefix}{expr} at {[[str(Fraction(*x)) for x in vv] for vv in rec['point']]}: {what}")
-    return len(cases)
+            ctx.violation(v["clause"], rec, f"{prefix}{expr} at {[[str(Fraction(*x)) for x in vv] for vv in point]}: {what}")
+    return status
 
 
-def table_check(ctx, fns):
+def table_check(ctx):
     """Cross-validation of the calculus table of the spec (trusted base): Richardson-extrapolated central differences
     of the table VALUE terms against the table DERIVATIVE term, numpy only.  A mismatch is a design failure (exit 2)."""
-    consts = dict(base([1], [[[q(1)]]], [], [], [], [], fns), Mode="table", BinOps=set(), UnOps=set(), LawOps=set(),
-                  MaxLevel=2, Samples=SAMPLES)
-    m, cf = tlc.gen(ctx.work / "table", "MC_AdAlgebraEnum", "AdAlgebraEnum", consts, invariants=["Emit"])
-    res = ctx.tlc(m, cf, workers=4, allow_violation=False)
+    fns = CATALOGUE["FnCat"]
+    m, cf = tlc.gen(ctx.work / "table", "MC_AdAlgebraEnum", "AdAlgebraEnum", enum_consts([], mode="table", samples=SAMPLES),
+                    invariants=["Emit"])
+    res = ctx.tlc(m, cf, workers=2, allow_violation=False, heap="2g")
     done = set()
     for r in res.records:
         if r.get("skip"):
             continue
         f = fns[r["fn"] - 1]
-        if f["name"] == "l2_norm":
-            continue
         v = [float(tnum(x)) for x in r["vals"]]
         h = fl(r["h"])
         d1 = (v[2] - v[1]) / (2 * h)
@@ -503,11 +532,15 @@ def table_check(ctx, fns):
 
 # ---------------------------------------------------------------------------------------------------------
 def run(ctx):
-    ctx.rule = ("TLC enumerates every AD program of depth <= 2 (thorough: plus random depth 3 programs) over "
+    import multiprocessing as mp
+
+    import porepy  # noqa: F401  (imported before the worker processes are forked)
+
+    ctx.rule = ("TLC enumerates every well-typed AD program of depth <= 2 (thorough: plus random depth 3 programs) over "
                 "{+, -, *, /, **, unary -, sparse @, row slicing, maximum, the functions of pp.ad.functions} x operand kinds "
                 "{AdArray, float, int, ndarray (both orders), csr/csc matrix, int/slice/index-array row key} at rational points; "
-                "every program in the smooth domain is executed on AdArrays from initAdArrays; a distinct non-trivial class = "
-                "a distinct (operations, operand kinds, function names) skeleton of depth >= 1")
+                "every program whose point is in its smooth domain is executed on AdArrays from initAdArrays and judged; "
+                "a distinct non-trivial class = a distinct (operations, operand kinds, function names) skeleton of depth >= 1")
     ctx.assumptions = [
         "algebraic entries (rationals with numerator, denominator <= 8192) are compared exactly by TLC after codec.rat (1e-9)",
         "entries whose required value is a symbolic term (transcendental functions, non-integer powers, log factors, folded "
@@ -524,72 +557,70 @@ def run(ctx):
         "numpy's own ndarray.__add__ broadcasting over an AdArray is documented as unsupported",
         "RegularizedHeaviside is not covered: its Jacobian is by design that of the regularisation, not the true derivative",
     ]
-    total, skipped, per = 0, {}, {}
-    fns_seen = {}
-    for name, consts, en, traces in plans(ctx.quick):
-        progs, skips = enumerate_programs(ctx, name, consts, en, traces)
-        outs = execute_all(consts, progs)
-        n = judge(ctx, name, consts, progs, outs)
-        nover = sum(1 for o, note in outs if o is None)
-        for r, (o, note) in zip(progs, outs):
-            if o is None:
-                continue
-            d = depth(r["t"])
-            ctx.case(key=shape_key(consts, r["t"]), nontrivial=d >= 1)
-        for k, v in skips.items():
-            skipped[k] = skipped.get(k, 0) + v
-        if nover:
-            skipped["float_overflow"] = skipped.get("float_overflow", 0) + nover
-        per[name] = dict(programs=len(progs), judged=n, symbolic=sum(1 for r in progs if r["sym"]),
-                         exact=sum(1 for r in progs if not r["sym"]), depth3=sum(1 for r in progs if depth(r["t"]) >= 3),
-                         simulated=bool(traces))
-        total += n
-        for f in consts["FnCat"]:
-            fns_seen[repr(f)] = f
-        want = [p for p in progs if depth(p["t"]) >= 2]
-        for r in (want[:1] + want[len(want) // 2: len(want) // 2 + 1]):
-            o = outs[progs.index(r)][0]
-            if o is not None and len(ctx.samples) < 6:
-                ctx.sample(dict(config=name, expr=show(consts, r["t"]), point=consts["Points"][r["pt"] - 1],
-                                val=o.get("float", {}).get("val"), jac=o.get("float", {}).get("jac"), error=o["error"],
-                                symbolic_entries=len(r["sym"])))
-    ntab = table_check(ctx, list(fns_seen.values()))
-    ctx.programs = total
+    ex_cfgs, sims = plans(ctx.quick)
+    # worker processes are forked before any thread exists
+    with mp.get_context("fork").Pool(NPROC) as pool:
+        pool.map(_warm, range(NPROC))
+        with ThreadPoolExecutor(max_workers=2 + len(sims)) as ex:
+            tab = ex.submit(table_check, ctx)
+            jobs = [ex.submit(enumerate_programs, ctx, "d2", ex_cfgs)]
+            jobs += [ex.submit(enumerate_programs, ctx, c["name"], [c], n) for c, n in sims]
+            enumerated = [j.result() for j in jobs]
+            ntab = tab.result()
+        progs, skipped = [], {}
+        for pr, sk in enumerated:
+            progs += pr
+            for k, v in sk.items():
+                skipped[k] = skipped.get(k, 0) + v
+        outs = execute_all(pool, progs)
+    status = judge_all(ctx, progs, outs)
+    per = {}
+    for r, o, st in zip(progs, outs, status):
+        e = per.setdefault(r["config"], dict(in_domain=0, judged=0, exact=0, symbolic=0, depth3=0))
+        e["in_domain"] += 1
+        if st != "judged":
+            skipped["float_overflow"] = skipped.get("float_overflow", 0) + 1
+            continue
+        d = depth(r["t"])
+        e["judged"] += 1
+        e["symbolic" if r["sym"] else "exact"] += 1
+        e["depth3"] += d >= 3
+        ctx.case(key=shape_key(CATALOGUE, r["t"]), nontrivial=d >= 1)
+    seen = set()
+    for r, o, st in zip(progs, outs, status):
+        if st == "judged" and depth(r["t"]) >= 2 and (r["config"], bool(r["sym"])) not in seen and not o["error"] and len(ctx.samples) < 6:
+            seen.add((r["config"], bool(r["sym"])))
+            ctx.sample(dict(config=r["config"], expr=show(CATALOGUE, r["t"]), point=CATALOGUE["Points"][r["pt"] - 1],
+                            val=o["float"]["val"], jac=o["float"]["jac"], symbolic_entries=len(r["sym"])))
+    ctx.programs = sum(e["judged"] for e in per.values())
     ctx.extra["per_configuration"] = per
-    ctx.extra["skipped"] = skipped
+    ctx.extra["skipped_outside_smooth_domain"] = skipped
     ctx.extra["table_checks"] = ntab
-    ctx.exhaustive = bool(ctx.quick) or None
-    if ctx.quick:
-        ctx.exhaustive = True
-    else:
-        ctx.exhaustive = False   # the depth 3 programs are sampled
+    ctx.exhaustive = bool(ctx.quick)   # thorough adds sampled depth 3 programs
     ctx.explanation = ("programs = AD expression trees executed on real AdArrays and judged by TLC against the dual-number "
-                       "semantics of AdAlgebra.tla; all depth <= 2 trees of the catalogue are enumerated and executed")
+                       "semantics of AdAlgebra.tla; all well-typed depth <= 2 trees of the configurations are enumerated and executed")
 
 
 def replay(ctx, body):
     rec = body["record"]
-    consts = rec["consts"]
-    r = dict(t=rec["t"], pt=rec["pt"], sym=rec["sym"])
-    out = execute(consts, r)
+    r = dict(t=rec["t"], pt=rec["pt"], sym=rec["sym"], config=rec.get("config", "replay"))
     ctx.case(key="replay")
     ctx.sample(dict(expr=rec.get("expr"), point=rec.get("point")))
-    judge(ctx, rec.get("config", "replay"), consts, [r], [out], prefix="replayed: ")
+    judge_all(ctx, [r], [execute(CATALOGUE, r)], prefix="replayed: ")
 
 
 # ---------------------------------------------------------------------------------------------------------
 # known findings (structural recognisers of the failing classes)
 # ---------------------------------------------------------------------------------------------------------
 def _m_coo_slice(rec):
-    """row slicing of an AdArray whose Jacobian is still the COO matrix built by initAdArrays for >= 2 variables"""
-    return (rec["clause"] == "Clauses" or rec["clause"] == "Evaluates") and "slice" in ops_in(rec["t"]) \
-        and len(rec["consts"]["VarSizes"]) >= 2 \
+    """row slicing in a program over >= 2 variables (initAdArrays then builds COO Jacobians, which cannot be indexed)"""
+    return rec["clause"] == "Evaluates" and "slice" in ops_in(rec["t"]) and rec["nvars"] >= 2 \
         and rec["observed"]["error"].startswith("TypeError: 'coo_matrix' object is not subscriptable")
 
 
 def _m_max_csc(rec):
-    """maximum(a, b) where a.jac is CSC (a = csc_matrix @ AdArray ...)"""
-    return "max" in ops_in(rec["t"]) and any(m["fmt"] == "csc" for m in rec["consts"]["MCat"]) \
+    """maximum(a, b) in a program that multiplies by a CSC matrix (a.jac is then CSC)"""
+    return rec["clause"] == "Evaluates" and "max" in ops_in(rec["t"]) and "csc" in rec["matrix_formats"] \
         and rec["observed"]["error"].startswith("ValueError: Both matrices should be of the specified format csc")
 
 
